@@ -36,12 +36,15 @@ void build_seed_r3(nix::File &f); // R1 plus a second block and at least two lin
 // handles RETURNED BY create* in the "chained" operations of the current session (keyed by entity id, like obs::Pool):
 // what they show must be what a freshly fetched handle shows (Explorer::creation_handles)
 extern obs::Pool created;
+// handles that MUTATED their entity in the current session and are still alive while File::close() runs (they are dropped after it):
+// what such a handle would do "on destruction" never reaches the file
+extern obs::Pool outlive;
 
 struct Session {
     std::string path;
     nix::File file;
     void open(nix::FileMode m = nix::FileMode::ReadWrite) { file = nix::File::open(path, m); }
-    void close() { created.clear(); if (file && file.isOpen()) file.close(); file = nix::none; }
+    void close() { created.clear(); if (file && file.isOpen()) file.close(); file = nix::none; outlive.clear(); }
     void reopen(nix::FileMode m = nix::FileMode::ReadWrite) { close(); open(m); }
 };
 
